@@ -8,6 +8,7 @@ pub fn gen_case(profile: &str, rng: &mut Rng, out: &mut String) -> bool {
         "C03" => super::c03::gen_case(rng, out),
         "C03W" => super::c03::gen_window_case(rng, out),
         "C04" => super::c04::gen_case(rng, out),
+        "C04T" => super::c04t::gen_case(rng, out),
         "C05" => super::c05::gen_case(rng, out),
         "C06" => super::c06::gen_case(rng, out),
         "C07" => super::c01::gen_case(rng, out, true),
